@@ -20,8 +20,8 @@ open TRS
 
 /-! ## the recogniser (specification level; no regular expressions) -/
 
-/-- `\d` of the pattern: every Unicode decimal digit (`Gen.cs1` is the translated character set) -/
-def isDigit (c : Char) : Bool := Gen.cs1.mem c
+/-- `\d` of the pattern: every Unicode decimal digit (`Gen.cs_940665b9` is the translated character set) -/
+def isDigit (c : Char) : Bool := Gen.cs_940665b9.mem c
 
 /-- `[nsNS]` -/
 def nsDirs : List Char := ['N', 'S', 'n', 's']
@@ -150,9 +150,9 @@ theorem single_mem (a : Nat) (d : Char) (hd : d.toNat = a) (c : Char) :
   rw [← Char.toNat_inj]
   omega
 
-theorem cs77_mem (c : Char) : Gen.cs77.mem c = decide (c = 'x') := single_mem 120 'x' rfl c
-theorem cs78_mem (c : Char) : Gen.cs78.mem c = decide (c = 'z') := single_mem 122 'z' rfl c
-theorem cs79_mem (c : Char) : Gen.cs79.mem c = decide (c = '_') := single_mem 95 '_' rfl c
+theorem cs77_mem (c : Char) : Gen.cs_06d53754.mem c = decide (c = 'x') := single_mem 120 'x' rfl c
+theorem cs78_mem (c : Char) : Gen.cs_f89663f3.mem c = decide (c = 'z') := single_mem 122 'z' rfl c
+theorem cs79_mem (c : Char) : Gen.cs_cb51335d.mem c = decide (c = '_') := single_mem 95 '_' rfl c
 
 theorem four_mem (a1 a2 a3 a4 : Nat) (d1 d2 d3 d4 : Char) (h1 : d1.toNat = a1) (h2 : d2.toNat = a2)
     (h3 : d3.toNat = a3) (h4 : d4.toNat = a4) (c : Char) :
@@ -164,9 +164,9 @@ theorem four_mem (a1 a2 a3 a4 : Nat) (d1 d2 d3 d4 : Char) (h1 : d1.toNat = a1) (
   rw [← Char.toNat_inj, ← Char.toNat_inj, ← Char.toNat_inj, ← Char.toNat_inj]
   omega
 
-theorem cs76_mem (c : Char) : Gen.cs76.mem c = decide (c ∈ nsDirs) :=
+theorem cs76_mem (c : Char) : Gen.cs_acfaf790.mem c = decide (c ∈ nsDirs) :=
   four_mem 78 83 110 115 _ _ _ _ rfl rfl rfl rfl c
-theorem cs80_mem (c : Char) : Gen.cs80.mem c = decide (c ∈ ewDirs) :=
+theorem cs80_mem (c : Char) : Gen.cs_4dcd5a8d.mem c = decide (c ∈ ewDirs) :=
   four_mem 69 87 101 119 _ _ _ _ rfl rfl rfl rfl c
 
 theorem isDigit_x : isDigit 'x' = false := by decide
@@ -195,10 +195,10 @@ theorem ble_dec (a b : Nat) : Nat.ble a b = decide (a ≤ b) := by
 
 def okRange (r : Nat × Nat) : Bool := (List.range' r.1 (r.2 + 1 - r.1)).all okDigitNat
 
-theorem cs1_okRange : Gen.cs1.all okRange = true := by decide +kernel
+theorem cs1_okRange : Gen.cs_940665b9.all okRange = true := by decide +kernel
 
 theorem cs1_not_space :
-    Gen.cs1.all (fun r => Gen.PY_SPACE.all (fun q => decide (r.2 < q.1) || decide (q.2 < r.1))) = true := by
+    Gen.cs_940665b9.all (fun r => Gen.PY_SPACE.all (fun q => decide (r.2 < q.1) || decide (q.2 < r.1))) = true := by
   decide +kernel
 
 theorem isDigit_ok {c : Char} (h : isDigit c = true) : okDigitNat c.toNat = true := by
@@ -305,37 +305,37 @@ def digStates (l : List Char) (n : Nat) (cs : List (Nat × Nat × Nat)) : List S
 
 /-- `\d{1,3}` -/
 theorem digits13_all (p l n cs) :
-    (Rx.rep (.chr Gen.cs1) 1 (some 3)).all ⟨p, l, n, cs⟩ = digStates l n cs := by
+    (Rx.rep (.chr Gen.cs_940665b9) 1 (some 3)).all ⟨p, l, n, cs⟩ = digStates l n cs := by
   unfold digStates isDigit
   rcases l with _ | ⟨c1, t1⟩
   · simp [Rx.all, repAll]
-  cases h1 : Gen.cs1.mem c1
+  cases h1 : Gen.cs_940665b9.mem c1
   · simp [Rx.all, repAll, h1]
   rcases t1 with _ | ⟨c2, t2⟩
   · simp [Rx.all, repAll, h1, canMore]
-  cases h2 : Gen.cs1.mem c2
+  cases h2 : Gen.cs_940665b9.mem c2
   · simp [Rx.all, repAll, h1, h2, canMore]
   rcases t2 with _ | ⟨c3, t3⟩
   · simp [Rx.all, repAll, h1, h2, canMore]
-  cases h3 : Gen.cs1.mem c3
+  cases h3 : Gen.cs_940665b9.mem c3
   · simp [Rx.all, repAll, h1, h2, h3, canMore]
   simp [Rx.all, repAll, h1, h2, h3, canMore]
 
 /-- `\d{2}` -/
 theorem digits22_all (p l n cs) :
-    (Rx.rep (.chr Gen.cs1) 2 (some 2)).all ⟨p, l, n, cs⟩ =
+    (Rx.rep (.chr Gen.cs_940665b9) 2 (some 2)).all ⟨p, l, n, cs⟩ =
       match l with
       | c1 :: c2 :: t => if isDigit c1 && isDigit c2 then [⟨some c2, t, n + 2, cs⟩] else []
       | _ => [] := by
   unfold isDigit
   rcases l with _ | ⟨c1, _ | ⟨c2, t⟩⟩
   · simp [Rx.all, repAll]
-  · cases h1 : Gen.cs1.mem c1 <;> simp [Rx.all, repAll, h1]
-  · cases h1 : Gen.cs1.mem c1 <;> cases h2 : Gen.cs1.mem c2 <;> simp [Rx.all, repAll, h1, h2, canMore]
+  · cases h1 : Gen.cs_940665b9.mem c1 <;> simp [Rx.all, repAll, h1]
+  · cases h1 : Gen.cs_940665b9.mem c1 <;> cases h2 : Gen.cs_940665b9.mem c2 <;> simp [Rx.all, repAll, h1, h2, canMore]
 
 /-- `(?P<g2>(?P<g3>\d{1,3})(?P<g4>[dirs]))` -/
 def numRx (g2 g3 g4 : Nat) (dcs : CharSet) : Rx :=
-  .grp g2 (.seq (.grp g3 (.rep (.chr Gen.cs1) 1 (some 3))) (.grp g4 (.chr dcs)))
+  .grp g2 (.seq (.grp g3 (.rep (.chr Gen.cs_940665b9) 1 (some 3))) (.grp g4 (.chr dcs)))
 
 theorem numRx_all (g2 g3 g4 : Nat) (dcs : CharSet) (dirs : List Char)
     (hd : ∀ c, dcs.mem c = decide (c ∈ dirs)) (hdis : ∀ c, isDigit c = true → c ∉ dirs)
@@ -409,7 +409,7 @@ def trCaps (g1 g2 g3 g4 n : Nat) (w : List Char) (info : Option (List Char × Ch
 
 /-- `(?P<g1>((?P<g3>\d{1,3})(?P<g4>[dirs]))|xxxz|___z)` -/
 def trRx (g1 g2 g3 g4 : Nat) (dcs : CharSet) : Rx :=
-  .grp g1 (.alt (numRx g2 g3 g4 dcs) (.alt (lit4Rx Gen.cs77 Gen.cs78) (lit4Rx Gen.cs79 Gen.cs78)))
+  .grp g1 (.alt (numRx g2 g3 g4 dcs) (.alt (lit4Rx Gen.cs_06d53754 Gen.cs_f89663f3) (lit4Rx Gen.cs_cb51335d Gen.cs_f89663f3)))
 
 theorem trRx_all (g1 g2 g3 g4 : Nat) (dcs : CharSet) (dirs : List Char)
     (hd : ∀ c, dcs.mem c = decide (c ∈ dirs)) (hdis : ∀ c, isDigit c = true → c ∉ dirs)
@@ -440,8 +440,8 @@ theorem trRx_all (g1 g2 g3 g4 : Nat) (dcs : CharSet) (dirs : List Char)
 
 /-- `(?P<sec>\d{2}|xx|__)?` -/
 def secRx : Rx :=
-  .rep (.grp 9 (.alt (.rep (.chr Gen.cs1) 2 (some 2))
-    (.alt (.seq (.chr Gen.cs77) (.chr Gen.cs77)) (.seq (.chr Gen.cs79) (.chr Gen.cs79))))) 0 (some 1)
+  .rep (.grp 9 (.alt (.rep (.chr Gen.cs_940665b9) 2 (some 2))
+    (.alt (.seq (.chr Gen.cs_06d53754) (.chr Gen.cs_06d53754)) (.seq (.chr Gen.cs_cb51335d) (.chr Gen.cs_cb51335d))))) 0 (some 1)
 
 theorem secRx_all (p l n cs) :
     secRx.all ⟨p, l, n, cs⟩ =
@@ -472,7 +472,7 @@ theorem secRx_all (p l n cs) :
 
 /-- the translated pattern is the three components in sequence -/
 theorem regex_eq : Gen.trs_unpacker_regex =
-    .seq (trRx 1 2 3 4 Gen.cs76) (.seq (trRx 5 6 7 8 Gen.cs80) secRx) := rfl
+    .seq (trRx 1 2 3 4 Gen.cs_acfaf790) (.seq (trRx 5 6 7 8 Gen.cs_4dcd5a8d) secRx) := rfl
 
 /-! ## `fullmatch` in closed form -/
 
@@ -487,13 +487,13 @@ theorem fullmatch_eq (l : List Char) : unpacker.rx.fullmatch l = (recognise l).m
   unfold Rx.fullmatch recognise
   rw [Rx.m_eq_findSome]
   show List.findSome? _ (Gen.trs_unpacker_regex.all _) = _
-  rw [regex_eq, all_seq, trRx_all 1 2 3 4 Gen.cs76 nsDirs cs76_mem ns_not_digit]
+  rw [regex_eq, all_seq, trRx_all 1 2 3 4 Gen.cs_acfaf790 nsDirs cs76_mem ns_not_digit]
   cases h1 : parseTR nsDirs l with
   | none => simp
   | some r1 =>
     obtain ⟨tw, ti, l1⟩ := r1
     simp only [List.flatMap_cons, List.flatMap_nil, List.append_nil]
-    rw [all_seq, trRx_all 5 6 7 8 Gen.cs80 ewDirs cs80_mem ew_not_digit]
+    rw [all_seq, trRx_all 5 6 7 8 Gen.cs_4dcd5a8d ewDirs cs80_mem ew_not_digit]
     cases h2 : parseTR ewDirs l1 with
     | none => simp
     | some r2 =>
